@@ -11,9 +11,10 @@ from .common import Report, cfg_text, run_tlc
 
 CLAUSES = {
     "C06": {"toc_sync", "no_empty_bookkeeping_groups", "meta_follows_reference", "uuids_stable", "index_eq_rebuild",
-            "failed_op_changes_nothing", "schema_record_complete", "state_observable", "container_identity_stable"},
+            "failed_op_changes_nothing", "schema_record_complete", "state_observable", "container_identity_stable",
+            "meta_listing_is_storage"},
     "C07": {"query_exact", "get_returns_stored", "get_found_iff_matches", "ancestor_view_valid", "ok_matches_reference",
-            "state_observable", "parent_path_is_class_chain", "held_handles_current"},
+            "state_observable", "parent_path_is_class_chain", "held_handles_current", "meta_listing_is_storage"},
     "C08": {"user_view_is_plain_tree", "listings_consistent", "reserved_rejected_without_effect",
             "no_unexpected_reserved_nodes", "tree_is_apply_of_reference", "state_observable"},
     "C09": {"ok_matches_reference", "tree_is_apply_of_reference", "meta_follows_reference", "drivers_agree",
@@ -87,7 +88,7 @@ FLAVOURS = [
     {"depth": 1, "pb": 0.2, "p_attach": 0.12, "p_detach": 0.04, "p_reserved": 0.02,
      "data_weights": {"set_dataset": 5, "delete": 4, "move": 4, "copy": 2, "create_group": 1.5, "set_attr": 1.5, "del_attr": 0.5,
                       "require_group": 0}},                                                # few paths, rewritten over and over
-    {"p_attach": 0.38, "attach_deep_datasets": 0.7, "restructure_groups_with_meta": 0.6, "resurrect_annotated": 0.35,
+    {"p_attach": 0.38, "attach_deep_datasets": 0.7, "restructure_groups_with_meta": 0.6, "resurrect_annotated": 0.45,
      "p_detach": 0.04, "p_reserved": 0.02,
      "data_weights": {"copy": 6, "move": 6, "set_dataset": 5, "create_group": 2, "delete": 1.5, "set_attr": 0.5, "del_attr": 0.2}},
     # metadata on datasets inside groups, then the groups are copied / moved
@@ -150,7 +151,7 @@ def container_selftest(rep: Report, wd: Path, accepted: List[List[Any]], rng: ra
         return
     kinds_by_pid = {
         "C06": ["drop_link", "dup_uuid", "empty_group", "index_differs"],
-        "C07": ["drop_query_result", "extra_query_result", "get_not_equal", "flip_ok"],
+        "C07": ["drop_query_result", "extra_query_result", "get_not_equal", "flip_ok", "phantom_listing"],
         "C08": ["leak_reserved", "hide_user_node", "reserved_effect", "listing"],
         "C09": ["driver_tree_differs", "flip_ok_one_driver", "driver_meta_differs", "driver_tree_differs"],
         "C20": ["wrong_parents", "jsdig", "not_validating", "wrong_provider"],
@@ -191,6 +192,8 @@ def container_selftest(rep: Report, wd: Path, accepted: List[List[Any]], rng: ra
             else:
                 d["gets"] = [{"node": [], "stored": ["vf.dd", [0, 1, 0]], "asked": ["vf.dd", [0, 1, 0]], "found": True,
                               "is_instance": True, "eq": False, "contains": True, "listed": True, "err": ""}]
+        elif kind == "phantom_listing":
+            d["umeta"].append({"node": [], "schema": "vf.zz", "in": True, "got": True})
         elif kind in ("flip_ok", "flip_ok_one_driver"):
             d["ok"] = not d["ok"]
         elif kind == "leak_reserved":
